@@ -1,13 +1,16 @@
 package main
 
 import (
+	"errors"
 	"fmt"
+	"io"
 	"math/rand"
 	"strconv"
 	"sync"
 	"time"
 
 	xmpp "gosrc.io/xmpp"
+	"gosrc.io/xmpp/stanza"
 )
 
 // C18: the real keepalive goroutine on a stub transport with controlled ping failures and session end.
@@ -93,10 +96,115 @@ func c18run(intervalMs, failAt, quitAtMs int) string {
 		len(tr.pingAt), tr.nclose, returned, afterQuit, afterRet, end.Sub(start).Milliseconds())
 }
 
+// deadConn: the stream header can be read, then the read side stays silent; the k-th keepalive write and every
+// later write fail. Close unblocks the reader.
+type deadConn struct {
+	halfOpenConn
+	failPing int
+	pingAt   []time.Time
+}
+
+func (d *deadConn) Write(p []byte) (int, error) {
+	d.mu.Lock()
+	defer d.mu.Unlock()
+	select {
+	case <-d.closed:
+		return 0, io.ErrClosedPipe
+	default:
+	}
+	if string(p) == "\n" {
+		d.pingAt = append(d.pingAt, time.Now())
+	}
+	if len(d.pingAt) >= d.failPing {
+		return 0, errors.New("harness: broken pipe")
+	}
+	return len(p), nil
+}
+
+// c18xrun: the real keepalive and the real receive loop of a Client on a real XMPPTransport over a dead connection.
+func c18xrun(intervalMs, k int) string {
+	errh, disc := 0, 0
+	var mu sync.Mutex
+	cfg := &xmpp.Config{TransportConfiguration: xmpp.TransportConfiguration{Address: "127.0.0.1:1", Domain: "localhost"},
+		Jid: "u@localhost/r", Credential: xmpp.Password("p")}
+	client, err := xmpp.NewClient(cfg, xmpp.NewRouter(), func(error) { mu.Lock(); errh++; mu.Unlock() })
+	if err != nil {
+		return "newclient-failed"
+	}
+	xt, ok := xmpp.VerifTransport(client).(*xmpp.XMPPTransport)
+	if !ok {
+		return "not-an-xmpp-transport"
+	}
+	xt.Config.ConnectTimeout = 0
+	dc := &deadConn{failPing: k}
+	dc.data = []byte("<?xml version='1.0'?><stream:stream xmlns='jabber:client' xmlns:stream='http://etherx.jabber.org/streams' version='1.0' id='s1'>")
+	dc.rng = rand.New(rand.NewSource(int64(k)))
+	dc.max = 64
+	dc.closed = make(chan struct{})
+	xmpp.VerifXMPPTransportSetConn(xt, dc)
+	if _, err := stanza.InitStream(xt.GetDecoder()); err != nil {
+		return "initstream-failed"
+	}
+	client.SetHandler(func(e xmpp.Event) error {
+		if xmpp.VerifEventState(e) == xmpp.StateDisconnected {
+			mu.Lock()
+			disc++
+			mu.Unlock()
+		}
+		return nil
+	})
+	client.Session = &xmpp.Session{}
+	quit := make(chan struct{})
+	kdone, rdone := make(chan struct{}), make(chan struct{})
+	go func() {
+		defer close(kdone)
+		xmpp.VerifKeepalive(xt, time.Duration(intervalMs)*time.Millisecond, quit)
+	}()
+	go func() {
+		defer close(rdone)
+		defer func() { recover() }()
+		xmpp.VerifRecv(client, quit)
+	}()
+	returned := true
+	limit := time.After(time.Duration(k+4)*time.Duration(intervalMs)*time.Millisecond + 3*time.Second)
+	for _, ch := range []chan struct{}{kdone, rdone} {
+		select {
+		case <-ch:
+		case <-limit:
+			returned = false
+		}
+	}
+	retTime := time.Now()
+	time.Sleep(time.Duration(2*intervalMs) * time.Millisecond)
+	dc.mu.Lock()
+	pings, after := len(dc.pingAt), 0
+	for _, t := range dc.pingAt {
+		if returned && t.After(retTime) {
+			after++
+		}
+	}
+	closed := dc.nclosed > 0
+	dc.mu.Unlock()
+	dc.Close() // release a receive loop that is still blocked (it would leak into the next runs)
+	mu.Lock()
+	defer mu.Unlock()
+	return fmt.Sprintf("pings=%d connclosed=%v errh=%d disc=%d returned=%v afterret=%d", pings, closed, errh, disc, returned, after)
+}
+
 func (c18) Exec(c Case) []string {
 	obs := make([]string, len(c.Ops))
 	var wg sync.WaitGroup
 	for i, op := range c.Ops {
+		if op[0] == "xrun" && len(op) == 3 {
+			iv, _ := strconv.Atoi(op[1])
+			k, _ := strconv.Atoi(op[2])
+			wg.Add(1)
+			go func(i int) {
+				defer wg.Done()
+				obs[i] = c18xrun(iv, k)
+			}(i)
+			continue
+		}
 		if op[0] != "run" {
 			obs[i] = "bad-op"
 			continue
@@ -146,6 +254,11 @@ func (c18) Generate(rng *rand.Rand, tier string, st *Stats) []Case {
 		for j := 1; j <= 4; j++ {
 			ops = append(ops, []string{"run", "5", "0", strconv.Itoa(5 * j)})
 			st.Inc("quit_on_tick")
+		}
+		// the whole chain on a real XMPPTransport over a dead connection: k-th keepalive write fails, reads are silent
+		for k := 1; k <= 4; k++ {
+			ops = append(ops, []string{"xrun", strconv.Itoa([]int{4, 7, 12}[(k+b)%3]), strconv.Itoa(k)})
+			st.Inc("dead_connection_real_transport")
 		}
 		cases = append(cases, Case{ID: fmt.Sprintf("batch%d", n), Ops: ops})
 		n++
